@@ -64,7 +64,10 @@ def mut_lines(base, T, mut, var):
     if mut == "removelast":
         return ["(array_remove_at %s (- (array_length %s) 1))" % (var, var)]
     if mut == "popall":
-        return ["while (> (array_length %s) 0) {" % var, "    let d9: %s = (array_pop %s)" % (T, var), "}"]
+        # bounded: on an engine whose pop does nothing (evaluator, literal arrays) "while length > 0" would never end
+        return ["let mut g9: int = 0", "while (< g9 12) {", "    if (> (array_length %s) 0) {" % var,
+                "        let d9: %s = (array_pop %s)" % (T, var), "    } else {", '        (println "C08:EMPTY")', "    }",
+                "    set g9 (+ g9 1)", "}"]
     return ["set %s (array_remove_at %s 0)" % (var, var)]
 
 
